@@ -10,7 +10,8 @@ environment `E` (regex engine seen through `hostFind` / `pathFind` / `headerRege
 header names, the `always_match_any_host` bit); the two regex trees are represented by their
 specification (`TreeSpec`, discharged by C08).  All seven layers are covered by the proofs.
 -/
-import RioModel.Proofs.RouterTop
+import RioModel.Proofs.RouterTreeTop
+import RioModel.Props.C08
 set_option linter.unusedSimpArgs false
 
 namespace Rio.C01
@@ -85,6 +86,53 @@ theorem memo_exact {C : Type} [DecidableEq C] (eval : C → Bool) (cs : List C)
     (memo : List (C × Bool)) (h : MemoSound eval memo) :
     (evalGroup eval cs memo).1 = cs.all eval ∧ MemoSound eval (evalGroup eval cs memo).2 :=
   evalGroup_spec eval cs memo h
+
+/-! ### The same statements with the two regex trees modelled as trees (composition with C08)
+
+`towerTOps T` is the tower in which `PathAndQueryMatcher.regex_tree_rule` and
+`HostMatcher.regex_tree_rule` are the radix-tree model of Model/Tree.lean (node prefixes, child
+selection, lazily compiled regexes, `find` descending only below matching prefixes) instead of
+their specification.  `T.render` is `MarkerString.regex`, `T.engine` the regex engine; `T.env` is
+the environment they induce, so `sat T.env` is the same flat predicate.  Extra hypothesis (`WF` of
+DESIGN §5): the marker patterns of the rules render into a domain `Good` on which the engine is
+prefix-sound (`PrefixSound`, property C08); for the engines `engineOf G` that domain is `GoodPat`,
+the rule-shaped patterns (`match_exact_tree_rule`). -/
+
+open Rio.Regex Rio.Tree in
+/-- **C01 over the real trees.** -/
+theorem match_exact_tree (T : TEnv) (Good : List Char → Prop) (hPS : PrefixSound T.engine Good)
+    (R : List Route) (hR : NodupIds R) (hW : ∀ r ∈ R, TreeGood T Good r) (q : Req) :
+    ((RouterG.matchReq (towerTOps T) (RouterG.build (towerTOps T) R) q).map (·.id)).Nodup ∧
+    ∀ r, r ∈ RouterG.matchReq (towerTOps T) (RouterG.build (towerTOps T) R) q ↔
+      r ∈ R ∧ sat T.env R r q = true := by
+  have hT := towerTSpec T Good hPS
+  have h := g_build T.env _ hT R hR hW
+  refine ⟨(g_nodup_match T.env _ hT _ _ h q).2, ?_⟩
+  intro r
+  rw [g_mem_match T.env _ hT _ _ h q r, List.mem_reverse,
+    sat_congr T.env R.reverse R r q (fun x => List.mem_reverse)]
+
+open Rio.Regex Rio.Tree in
+/-- The router over the real trees and the specification-level router answer alike (as multisets). -/
+theorem match_tree_eq_spec (T : TEnv) (Good : List Char → Prop) (hPS : PrefixSound T.engine Good)
+    (R : List Route) (hR : NodupIds R) (hW : ∀ r ∈ R, TreeGood T Good r) (q : Req) :
+    (RouterG.matchReq (towerTOps T) (RouterG.build (towerTOps T) R) q).Perm
+      ((Router.build T.env R).matchReq T.env q) := by
+  have h1 := match_exact_tree T Good hPS R hR hW q
+  have h2 := match_exact T.env R hR q
+  rw [List.perm_ext_iff_of_nodup (nodup_of_map_nodup _ _ h1.1) (nodup_of_map_nodup _ _ h2.1)]
+  intro r; rw [h1.2 r, h2.2 r]
+
+open Rio.Regex Rio.Tree in
+/-- For the engine induced by any meaning `G` of marker regexes, on rule-shaped patterns
+(`GoodPat`: escaped literals interleaved with groups on whose extent the tree's scanner and the
+regex syntax agree; non-empty). -/
+theorem match_exact_tree_rule (T : TEnv) (G : List Char → Option Re) (hE : T.engine = engineOf G)
+    (R : List Route) (hR : NodupIds R) (hW : ∀ r ∈ R, TreeGood T GoodPat r) (q : Req) :
+    ((RouterG.matchReq (towerTOps T) (RouterG.build (towerTOps T) R) q).map (·.id)).Nodup ∧
+    ∀ r, r ∈ RouterG.matchReq (towerTOps T) (RouterG.build (towerTOps T) R) q ↔
+      r ∈ R ∧ sat T.env R r q = true :=
+  match_exact_tree T GoodPat (hE ▸ Rio.C08.prefix_sound G) R hR hW q
 
 /-! ### Non-vacuity: a concrete rule list satisfying the hypothesis, and a concrete match -/
 
